@@ -306,7 +306,7 @@ def run(tier):
         chk.coverage["regression_corpus"] = len([t for t, _ in tagged if t.startswith("corpus:")])
         hs = [h for _, h in tagged]
         lines = [h.lines for h in hs]
-        real = wo.run_histories(exe, "real", lines, d)
+        real = wo.run_histories(exe, "real", lines, d, tablecheck=True)
         twin = wo.run_histories(exe, "twin", lines, d)
         model = wo.run_model(WASIDRIVER, lines, maxbytes) if ok else None
         chk.coverage["rule"] = ("a case is one history (setup, ≤ 30 calls of path_open/fd_write/fd_pwrite/fd_read/fd_pread/fd_seek/fd_tell/fd_filestat_get/fd_close, "
@@ -331,6 +331,10 @@ def run(tier):
             if idx % max(1, len(hs) // 10) == 0:
                 sample = {"history": ops_only(h)[:8], "real": r[0][-4:], "twin": t[0][-4:], "model": model[idx][0][-4:] if model else None}
             chk.count_case(sig, True, sample)
+            for li, l in enumerate(r[0]):
+                for tok in wo.table_tokens(l):
+                    seen.setdefault("table-invariant:" + tok.split(":")[0],
+                                    (h, f"descriptor-table invariant broken on the real code after `{h.lines[li]}` ({tok}): see Props/C13 native_fds_open_distinct"))
             if r[1].startswith("E died"):
                 key = "sanitizer:" + r[1].split()[2]
                 seen.setdefault(key, (h, f"the real code aborts in the sanitizer: {r[1]}"))
@@ -354,7 +358,7 @@ def run(tier):
                 elif dmt:
                     spec_mismatch.append(f"history {idx} line {dmt[0]}: twin `{dmt[1]}` model `{dmt[2]}`")
         for key, (h, what) in sorted(seen.items()):
-            small = shrink(exe, d, h, key, maxbytes) if not key.startswith("sanitizer") else h
+            small = shrink(exe, d, h, key, maxbytes) if not key.startswith(("sanitizer", "table-invariant")) else h
             chk.violation(key, what, {"history": small.lines, "calls": ops_only(small), "mode": "real-vs-twin",
                                       "replay_cmd": "python3 tools/check.py C12 --replay <this file>"}, True)
         chk.coverage["op_histogram"] = op_hist
